@@ -973,6 +973,10 @@ fn window(v: &[String], at: usize) -> Vec<String> {
     v[lo..hi].to_vec()
 }
 
+/// `--few`: the family runs as a supporting correspondence of another property's check (C03, C13):
+/// only the model/implementation comparison counts there, C14's own statement oracles are not reported
+static SUPPORT_MODE: std::sync::atomic::AtomicBool = std::sync::atomic::AtomicBool::new(false);
+
 pub fn check_case(c: &Case14, model: &mut Model, rep: &mut Report) {
     rep.evaluations += 1;
     let t0 = Instant::now();
@@ -1015,6 +1019,20 @@ pub fn check_case(c: &Case14, model: &mut Model, rep: &mut Report) {
         }
     }
     let info = |what: &str| json!({"origin": c.origin, "xml": c.xml, "acts": acts_json(&c.acts), "what": what});
+    if SUPPORT_MODE.load(std::sync::atomic::Ordering::Relaxed) && (run.executor_stuck || run.panicked || run.timed_out) {
+        if run.executor_stuck {
+            // the known lock-order deadlock (C17-E-P): not this property's business
+            rep.count("support_mode_executor_deadlock_skipped");
+            return;
+        }
+        let (_, status) = model_obs(model, &run.doc, &evs);
+        if status == "diverged" {
+            rep.count("skipped_document_diverges");
+        } else {
+            rep.disagree(json!({"origin": c.origin, "xml": c.xml, "acts": acts_json(&c.acts), "impl": if run.panicked { "session panicked" } else { "session hung" }, "model": status}));
+        }
+        return;
+    }
     if run.executor_stuck {
         rep.oracle_fail("C14:deadlock:executor-state-held", info("the executor's state mutex is held for good: session start (executor state → processor) against a cross-session send (processor → executor state); the parent takes no further step"));
         return;
@@ -1061,7 +1079,12 @@ pub fn check_case(c: &Case14, model: &mut Model, rep: &mut Report) {
         rep.add(k, *v);
     }
     let mut seen_sig: Vec<String> = vec![];
+    let support = SUPPORT_MODE.load(std::sync::atomic::Ordering::Relaxed);
     for (sig, what) in &j.failures {
+        if support {
+            rep.count("c14_statement_oracle_failures_not_reported_in_support_mode");
+            continue;
+        }
         if seen_sig.contains(sig) {
             continue;
         }
@@ -1158,6 +1181,7 @@ pub fn run(args: &Args, model: &mut Model) -> Report {
          transitions on child events, random schedule of parent events / direct child pokes / sleeps / waits); one PRNG \
          state per (seed,index); non-trivial = at least one invocation was started",
     );
+    SUPPORT_MODE.store(args.extra.iter().any(|a| a == "--few"), std::sync::atomic::Ordering::Relaxed);
     // children get quiet recording tracers
     let _ = factory_logs();
     if let Some(path) = &args.replay {
@@ -1186,7 +1210,9 @@ pub fn run(args: &Args, model: &mut Model) -> Report {
         rep.count(&format!("doc_invokes_{}", c.invokes.min(4)));
         check_case(&c, model, &mut rep);
     }
-    run_real(args, &mut rep, None);
+    if !few {
+        run_real(args, &mut rep, None);
+    }
     rep
 }
 
@@ -1195,7 +1221,7 @@ pub fn run(args: &Args, model: &mut Model) -> Report {
 /// fixed scenarios on rfsm-expression and ECMAScript parents
 pub fn run_real(_args: &Args, rep: &mut Report, only: Option<&Value>) {
     for dm in ["rfsm-expression", "ecmascript"] {
-        for sc in ["params-only-declared", "event-invokeid-and-finalize", "invoke-argument-error"] {
+        for sc in ["params-only-declared", "event-invokeid-and-finalize", "invoke-argument-error", "reply-by-origin"] {
             if let Some(v) = only {
                 if v["scenario"].as_str() != Some(sc) || v["datamodel"].as_str() != Some(dm) {
                     continue;
@@ -1272,6 +1298,28 @@ fn real_scenario(sc: &str, dm: &str) -> (String, Vec<(&'static str, String)>) {
             );
             // one error event (one failing invoke, attempted once), handled before e1; nothing new later
             (xml, vec![("error-not-handled-before-next-event", "e1-after-errors|1".to_string()), ("invoke-attempted-again", "e2-after-errors|1".to_string()), ("invoke-attempts", "#invoke=2".to_string())])
+        }
+        // the child answers the parent's question by the session address it reads from _event.origin
+        // (not by `#_parent`): the reply is still an event of that invocation — it carries the
+        // invokeid and the invoke's <finalize> runs for it
+        "reply-by-origin" => {
+            let child = format!(
+                "<scxml xmlns=\"http://www.w3.org/2005/07/scxml\" version=\"1.0\" datamodel=\"{dm}\" name=\"child\" initial=\"r\">\
+                 <state id=\"r\"><onentry><send event=\"k.hello\" target=\"#_parent\"/></onentry>\
+                   <transition event=\"ask\"><send event=\"k.reply\" targetexpr=\"_event.origin\"><param name=\"n\" expr=\"7\"/></send></transition></state></scxml>",
+                dm = dm
+            );
+            let xml = format!(
+                "{head}<datamodel><data id=\"v\" expr=\"0\"/></datamodel>\
+                 <state id=\"s0\"><invoke type=\"scxml\" id=\"c1\"><content>{child}</content><finalize><assign location=\"v\" expr=\"v + 1\"/></finalize></invoke>\
+                   <transition event=\"k.hello\"><send event=\"ask\" target=\"#_c1\"/></transition>\
+                   <transition event=\"k.reply\"><script>mark('reply', _event.invokeid, v)</script></transition>\
+                 </state></scxml>",
+                head = head(dm),
+                child = child
+            );
+            // finalize ran for k.hello and for k.reply: v == 2
+            (xml, vec![("reply-without-invokeid-or-finalize", "reply|c1|2".to_string())])
         }
         // _event.invokeid in the parent, finalize (updates v from the event data) before the guard is evaluated
         _ => {
